@@ -13,7 +13,6 @@ import (
 	"net/http"
 	"os"
 	"path/filepath"
-	"sort"
 	"strings"
 	"sync"
 	"sync/atomic"
@@ -196,6 +195,14 @@ func (ch *child) setup() error {
 	// one agent up front so that console/task broadcasts have a target
 	if _, err := ch.registerAgent(nil, ""); err != nil {
 		return fmt.Errorf("first agent registration: %w", err)
+	}
+	// a listener that a "listener remove" follow-up on an unauthenticated socket aims at
+	keep := "c06-keep-" + ch.tokPrefix
+	a.Send(opclient.EvListener, opclient.ListenerAdd, map[string]any{"Protocol": "Smb", "Name": keep, "PipeName": "pipe-" + keep})
+	if err := ch.waitAlice(func(f opclient.Frame) bool {
+		return f.Head.Event == opclient.EvListener && f.Body.SubEvent == opclient.ListenerAdd && f.InfoStr("Name") == keep
+	}); err != nil {
+		return fmt.Errorf("keep listener: %w", err)
 	}
 	if ch.silent, err = ch.dial(); err != nil {
 		return err
@@ -505,16 +512,22 @@ func (ch *child) firstReadHook() {
 		return
 	}
 	cr.hookOnce.Do(func() {
-		cr.hookHit = true
+		var herr error
+		var hs *snap
 		if cr.sp.WinK != "" {
 			if err := ch.bcast(cr.sp.WinK, cr, "win"); err != nil {
-				cr.hookErr = err
-				return
+				herr = err
+			} else {
+				ch.rec.Observe("window_broadcasts", 1)
 			}
-			ch.rec.Observe("window_broadcasts", 1)
 		}
-		s := ch.snapshot()
-		cr.hookS0 = &s
+		if herr == nil {
+			s := ch.snapshot()
+			hs = &s
+		}
+		cr.mu.Lock()
+		cr.hookHit, cr.hookErr, cr.hookS0 = true, herr, hs
+		cr.mu.Unlock()
 	})
 }
 
@@ -805,13 +818,16 @@ func (ch *child) runOp(sp *Spec) (restart bool) {
 		time.Sleep(20 * time.Millisecond)
 	}
 	ch.cur.Store(nil)
-	if cr.hookErr != nil {
-		return ch.wedge(sp, "in-window "+sp.WinK, cr.hookErr)
+	cr.mu.Lock()
+	hookHit, hookErr, hookS0 := cr.hookHit, cr.hookErr, cr.hookS0
+	cr.mu.Unlock()
+	if hookErr != nil {
+		return ch.wedge(sp, "in-window "+sp.WinK, hookErr)
 	}
-	if cr.hookHit {
+	if hookHit {
 		ch.rec.Observe("first_read_windows", 1)
-		if cr.hookS0 != nil {
-			S0 = *cr.hookS0
+		if hookS0 != nil {
+			S0 = *hookS0
 		}
 	}
 	if verdict == "frame" && sp.Expect != "accept" {
@@ -1006,11 +1022,3 @@ func (ch *child) cleanupStale(p *probe) {
 	}
 }
 
-func sortedKeys(m map[string]string) []string {
-	var out []string
-	for k := range m {
-		out = append(out, k)
-	}
-	sort.Strings(out)
-	return out
-}
